@@ -203,36 +203,39 @@ func eqIDs(a, b []string) bool {
 	return true
 }
 
-func (w *World) c02ProbeAll(why string) {
-	in := w.Insts[0]
+func (w *World) c02ProbeAll(why string) { w.probeMutes("C02", 0, why) }
+
+// probeMutes compares Silencer.Mutes of instance i with the direct evaluation for every label set.
+func (w *World) probeMutes(prop string, i int, why string) {
+	in := w.Insts[i]
 	if in.App == nil {
 		return
 	}
 	now := time.Now()
-	sils := w.dumpSilences(0)
+	sils := w.dumpSilences(i)
 	if onBoundary(sils, now) {
 		return
 	}
 	for _, ls := range w.Plan.LabelSets {
 		want := bruteMutedBy(sils, ls, now)
-		muted, ids := w.mutesProbe(0, ls)
+		muted, ids := w.mutesProbe(i, ls)
 		w.Online.Ob("mute-verdict-equals-direct-evaluation")
 		if muted != (len(want) > 0) || !eqIDs(ids, want) {
-			sig := "C02/verdict-differs-from-stored-silences"
+			sig := prop + "/verdict-differs-from-stored-silences"
 			switch {
 			case !muted && len(want) > 0:
-				sig = "C02/active-matching-silence-does-not-mute"
+				sig = prop + "/active-matching-silence-does-not-mute"
 			case muted && len(want) == 0:
-				sig = "C02/muted-without-active-matching-silence"
+				sig = prop + "/muted-without-active-matching-silence"
 			default:
-				sig = "C02/silenced-by-ids-differ"
+				sig = prop + "/silenced-by-ids-differ"
 			}
-			if w.c02RacedInPlaceEdit(ls) {
+			if prop == "C02" && w.c02RacedInPlaceEdit(ls) {
 				// the cache entry was written by a parked concurrent call that straddled the
 				// previous end of a matching silence while an in-place API edit moved that end
 				sig += ":after-concurrent-query-straddled-end-during-in-place-edit"
 			}
-			w.Online.Fail("C02", sig, w.H.now(), "Silencer.Mutes(%s) = %v by %v; direct evaluation of the %d stored silences gives %v (%s; silences: %s)", labelsKey(ls), muted, w.silNames(ids), len(sils), w.silNames(want), why, w.silBrief(sils, now))
+			w.Online.Fail(prop, sig, w.H.now(), "Silencer.Mutes(%s) = %v by %v; direct evaluation of the %d stored silences gives %v (%s; silences: %s)", labelsKey(ls), muted, w.silNames(ids), len(sils), w.silNames(want), why, w.silBrief(sils, now))
 			return
 		}
 	}
